@@ -431,6 +431,13 @@ func (p *Element) Neg(p1 *Element) *Element {
 
 // ScalarMul sets p to p1*s.
 func (p *Element) ScalarMul(p1 *Element, scalarMont *fr.Element) *Element {
+	// The endomorphism used by the GLV scalar multiplication below is not defined
+	// on the points with x = 0, i.e. on the two representatives (0, 1) and (0, -1)
+	// of the identity element (it maps them to the invalid point (0:0:0)).
+	// Any multiple of the identity is the identity.
+	if p1.inner.X.IsZero() && !p1.inner.Y.IsZero() {
+		return p.SetIdentity()
+	}
 	var bigScalar big.Int
 	scalarMont.ToBigIntRegular(&bigScalar)
 	p.inner.ScalarMultiplication(&p1.inner, &bigScalar)
